@@ -179,6 +179,11 @@ func sharedStateScenario(r *Run) {
 		// a LIMIT in each branch: two Limit nodes starting on the two input goroutines
 		refA = fmt.Sprintf("(SELECT * FROM c29a.json x LIMIT %d) a", 1+nA/2)
 		refB = fmt.Sprintf("(SELECT * FROM c29b.json y LIMIT %d) b", 1+nB)
+		// A branch LIMIT cancels its file's line reader while the query goes on. Whether that reader notices the
+		// cancellation before or after it asks for the next chunk is Go's choice between two ready select cases;
+		// the hand-off gates know the context and stop being scheduling points then, a gated disk read does not
+		// (a read has no context) and would make that choice visible in the schedule: no gated reads here.
+		gateDisk = false
 	}
 	sql := "SELECT a.id, b.id FROM " + refA + " " + joinSQL + " " + refB + " ON a.g = b.g"
 	if joinSQL == "JOIN" {
